@@ -7,7 +7,7 @@
     groups, ACLs, address groups and the config-level functions is decided per generated object
     by evaluating parse (render (parse t)) in the model and in the implementation (strict for
     native text, from the first re-parse on for foreign spellings) - partial in that sense. *)
-From V Require Import base.Prelude base.Strs gen.Tables model.Cfg model.Names model.Ports
+From V Require Import base.Prelude base.Strs gen.Tables model.Cfg model.Names model.Ports model.Addr
   model.Lex model.AddrText model.AceText model.AclText
   proofs.NamesProofs proofs.PortsProofs proofs.TextProofs.
 Local Open Scope N_scope.
@@ -23,6 +23,23 @@ Proof. exact proto_roundtrip. Qed.
 
 Theorem C06_number_partial : forall n, undec (dec n) = Some n.
 Proof. exact undec_dec. Qed.
+
+(** IPv4 text: the dotted spelling the renderer produces for any 32-bit address is read back as
+    that address (the four octets pass the IPv4Address rules: 1-3 digits, no leading zero, <= 255) *)
+Theorem C06_ip_partial : forall n, (n < 2 ^ 32)%N -> parse_ip (render_ip n) = Some n.
+Proof. exact parse_render_ip. Qed.
+
+(** address text: each native spelling the renderer writes (any / host A / A/len / A W) is read
+    back as exactly that spelling, for all 32-bit addresses and masks and all prefix lengths *)
+Theorem C06_address_partial : forall pl x m len, (x < 2 ^ 32)%N -> (m < 2 ^ 32)%N -> (len <= 32)%nat ->
+  spelling_of_text pl "any" = Ok SAny
+  /\ spelling_of_text pl ("host " ++ render_ip x) = Ok (SHost x)
+  /\ spelling_of_text pl (render_ip x ++ "/" ++ dec (N.of_nat len)) = Ok (SPrefix x len)
+  /\ spelling_of_text pl (render_ip x ++ " " ++ render_ip m) = Ok (SWild x m).
+Proof.
+  intros pl x m len Hx Hm Hl. split; [apply any_text_fixpoint|]. split; [now apply host_text_fixpoint|].
+  split; [now apply prefix_text_fixpoint|now apply wild_text_fixpoint].
+Qed.
 
 (** a two-step example with a foreign spelling (prefix notation on IOS) *)
 Definition c06_example : res (string * string) :=
